@@ -13,8 +13,13 @@ import numpy as np
 from harness.core import Violation
 
 
+M_FORM = [None]          # element type in which min_cluster_size is handed to the library (None: Python int); set per case
+
+
 def build_model(labels, K, m, spreads, nw=1):
     from fast_ticc.containers import arguments, model_state
+    if M_FORM[0]:
+        m = np.dtype(M_FORM[0]).type(m)
     args = arguments.UserArguments(sparsity_weight=0.1, iteration_limit=10, label_switching_cost=1.0,
                                    min_cluster_size=m, min_meaningful_covariance=0, num_clusters=K,
                                    num_processors=1, window_size=1, biased_covariance=False)
